@@ -294,7 +294,7 @@ def enum_cases(tier):
                 for ocert in CERTS:
                     for dest in DESTS:
                         k += 1
-                        yield dict(_mk("https", "https", fwd, pcert, ocert, dest, k % 3, [], 1 + k % 2, [], False, bool(k % 2), (False, None)[k % 2]), ctxmode=cm)
+                        yield dict(_mk("https", "https", fwd, pcert, ocert, dest, core.pick(k, 1, (0, 1, 2)), [], core.pick(k, 2, (1, 2)), [], False, core.pick(k, 3, (True, False)), core.pick(k, 4, (False, None))), ctxmode=cm)
     # the routing truth table x certificates x headers
     for ps, ds, fwd in itertools.product(("http", "https"), ("http", "https"), (False, True)):
         for pcert in (CERTS if ps == "https" else ["ok"]):
@@ -303,7 +303,7 @@ def enum_cases(tier):
                     for dest in DESTS:
                         for retries in (False, None):
                             k += 1
-                            yield _mk(ps, ds, fwd, pcert, ocert, dest, ph, [], 1 + k % 3, [0] if k % 2 else [], bool(k % 5 == 0), bool(k % 2), retries)
+                            yield _mk(ps, ds, fwd, pcert, ocert, dest, ph, [], core.pick(k, 1, (1, 2, 3)), core.pick(k, 2, ([0], [])), core.pick(k, 3, (True, False, False, False, False)), core.pick(k, 4, (True, False)), retries)
     # CONNECT replies
     for ps, fwd in itertools.product(("http", "https"), (False, True)):
         for seq in itertools.chain(itertools.product(CONNECT_REPLIES, repeat=1), itertools.product(CONNECT_REPLIES, repeat=2)):
@@ -311,14 +311,14 @@ def enum_cases(tier):
                 k += 1
                 if tier == "quick" and len(seq) == 2 and k % 2:
                     continue
-                yield _mk(ps, "https", fwd, "ok", "ok", DESTS[k % len(DESTS)], k % 3, list(seq), 1 + k % 2, [], False, bool(k % 2), retries)
+                yield _mk(ps, "https", fwd, "ok", "ok", core.pick(k, 1, DESTS), core.pick(k, 2, (0, 1, 2)), list(seq), core.pick(k, 3, (1, 2)), [], False, core.pick(k, 4, (True, False)), retries)
     # closed tunnels between requests
     for ps in ("http", "https"):
         for close_after in ([0], [1], [0, 1], [0, 2]):
             for nreq in (2, 3):
                 for dest in DESTS:
                     k += 1
-                    yield _mk(ps, "https", False, "ok", "ok", dest, k % 3, [], nreq, close_after, bool(k % 3 == 0), True, None)
+                    yield _mk(ps, "https", False, "ok", "ok", dest, core.pick(k, 1, (0, 1, 2)), [], nreq, close_after, core.pick(k, 2, (True, False, False)), True, None)
 
 
 def _hyp():
